@@ -665,5 +665,30 @@ pub fn run(mut run: Run) -> i32 {
             }
         });
     }
+    // larger hand-picked polygons with several kinds of contact at once (a hole vertex on a vertical edge of another hole, a hole vertex on the shell's
+    // top edge): every translation on a 3x3 window and the four axis reflections
+    {
+        let picked: Vec<Poly> = vec![
+            Poly { shell: vec![(4, 1), (9, 5), (12, 12), (10, 11), (3, 11), (4, 9)], holes: vec![vec![(7, 6), (8, 8), (9, 11)], vec![(5, 6), (6, 5), (7, 5), (7, 7), (6, 7)]] },
+            Poly { shell: vec![(0, 0), (12, 0), (12, 12), (0, 12)], holes: vec![vec![(7, 6), (8, 8), (10, 9)], vec![(5, 6), (6, 5), (7, 5), (7, 7), (6, 7)]] },
+            Poly { shell: vec![(0, 0), (12, 0), (12, 12), (0, 12)], holes: vec![vec![(7, 6), (9, 7), (9, 9)], vec![(5, 5), (7, 5), (7, 7), (5, 7)]] },
+            Poly { shell: vec![(0, 0), (12, 0), (12, 12), (0, 12)], holes: vec![vec![(5, 6), (3, 7), (3, 9)], vec![(5, 5), (7, 5), (7, 7), (5, 7)]] },
+        ];
+        assert!(picked.iter().all(poly_valid), "picked polygon invalid");
+        let mut all: Vec<Poly> = vec![];
+        for p in &picked {
+            for refl in 0..4 {
+                let f = |v: &IP| -> IP { (if refl & 1 == 1 { 12 - v.0 } else { v.0 }, if refl & 2 == 2 { 12 - v.1 } else { v.1 }) };
+                let fix = |r: &Vec<IP>| -> Vec<IP> { let m: Vec<IP> = r.iter().map(f).collect(); if area2(&m) < 0 { reverse_ring(&m) } else { m } };
+                let q = Poly { shell: fix(&p.shell), holes: p.holes.iter().map(|h| reverse_ring(&fix(h))).collect() };
+                if poly_valid(&q) {
+                    all.push(q);
+                }
+            }
+        }
+        run.stage("monotone-picked-polygons", all.len(), |idx, acc| {
+            mono_checks(acc, idx, &all[idx], &true);
+        });
+    }
     run.finish()
 }
